@@ -6,12 +6,12 @@ FACTS_FOR = {
     "C02": ["mwWriteOk", "mwSyncOk", "mwUnmapOk", "mwWriteReturns", "handleErrorNoLock", "errorAttributionWriteAt",
             "errorAttributionSync", "errorAttributionUnmap", "buildReadWriters", "removeBackendTail", "removeReplicaTail"],
     "C03": ["volStatusRW", "volStatusCounts", "setModeReevaluates", "removeReplicaTail"],
-    "C04": ["buildReadWriters", "errorAttributionReadAt", "handleErrorNoLock"],
+    "C04": ["buildReadWriters", "errorAttributionReadAt", "handleErrorNoLock", "startLoops", "startOneOrder"],
     "C05": ["mwWriteOk", "mwSyncOk", "mwUnmapOk", "handleErrorNoLock", "errorAttributionWriteAt", "errorAttributionSync",
             "errorAttributionUnmap", "errorAttributionReadAt", "removeBackendTail", "removeReplicaTail"],
     "C06": ["fullWritePunch", "preloadPunch", "removeIndexSnapIndx", "lookupBody"],
     "C07": ["verifyOrder", "verifyChainGuard", "verifySlices", "canAdd", "addReplicaNoLockRechecks", "addReplicaOrder", "writeWidensForWO", "widenForWO"],
-    "C09": ["canSignal", "electionLoop", "electionInit", "electionSkipsRebuildingRegistrant"],
+    "C09": ["canSignal", "electionLoop", "electionInit", "electionSkipsRebuildingRegistrant", "startLoops", "startOneOrder"],
     "C10": ["replicaWriteCounter", "increaseRevisionCounter", "getRevisionCounter", "guard_Replica_SetRevisionCounter", "verifyOrder"],
     "C11": ["cleanerConds", "cleanerSlices", "removeIndexShifts", "removeIndexBody", "removeIndexSnapIndx",
             "guard_Replica_PrepareRemoveDisk", "guard_Replica_RemoveDiffDisk"],
@@ -25,8 +25,9 @@ FACTS_FOR = {
             "guard_Server_ReadAt", "guard_Server_Sync", "guard_Server_Unmap", "guard_Server_Snapshot",
             "guard_Server_RemoveDiffDisk", "guard_Server_ReplaceDisk", "guard_Server_PrepareRemoveDisk", "guard_Server_Revert",
             "guard_Server_SetReplicaMode", "guard_Server_SetRevisionCounter", "guard_Server_SetCheckpoint", "guard_Server_Reload"],
-    "C19": ["cloneReplicaOrder", "appCloneOrder", "cloneStatusOrder", "cloneStatusLoop", "updateCloneInfo"],
-    "C18": ["buildReadWriters", "removeBackendTail", "canAdd", "addReplicaNoLockRechecks", "addReplicaOrder", "removeReplicaTail", "volStatusCounts"],
+    "C08": ["createDiskVolMetaFailure", "revertDiskVolMetaFailure"],
+    "C19": ["startOneOrder", "cloneReplicaOrder", "appCloneOrder", "cloneStatusOrder", "cloneStatusLoop", "updateCloneInfo"],
+    "C18": ["startOverRF", "startGuardBeforeReset", "startLoops", "buildReadWriters", "removeBackendTail", "canAdd", "addReplicaNoLockRechecks", "addReplicaOrder", "removeReplicaTail", "volStatusCounts"],
 }
 
 ENGINES = ["replicadiff", "ctldiff", "rpcdiff", "restdiff", "crashdiff"]
@@ -43,7 +44,7 @@ def rep(profile, qn, ql, tn, tl, salt=0):
 
 
 CTL = ["modelled: every environment answer (replica replies, start signal, liveness probe, map iteration order where it matters) is part of the request; theorems quantify over all of them",
-       "modelled: quorum (updater) replicas are not modelled (quorumReplicaCount = 0); Start carries one address (what sync.AddReplica sends)",
+       "modelled: quorum (updater) replicas are not modelled (quorumReplicaCount = 0); Start carries any number of addresses (REST start with a replica list), each with its own answers",
        "modelled: goroutine fan-out inside MultiWriterAt / Snapshot / Resize is replaced by its wg.Wait() summary; each request is one step because the code holds Controller.Lock across it — except AddReplica, which releases the lock around factory.Create and is modelled as its two critical sections (addPre / addPost) that interleave freely with every other request; the harness holds the real call inside Create with a gate in the scripted factory",
        "harness: real controller.Controller driven in-process with scripted types.BackendFactory / Backend / Frontend and HTTP replica endpoints on 127.x.y.z:9502; monitor goroutines are fired by the harness",
        "not covered: timers (ping ticker, 1 s read-only delay), data races, the vendored iSCSI frontend"]
@@ -61,7 +62,7 @@ PROPS = {
             "runs": [ctl("faults", 640, 30, 12000, 40, 11)], "modelled": CTL},
     "C03": {"lean": CTLMOD, "prefixes": ["c03_", "ctl_reachable_inv"],
             "runs": [ctl("membership", 480, 30, 9000, 40, 12)], "modelled": CTL},
-    "C04": {"lean": CTLMOD, "prefixes": ["c04_", "c18_consistent", "ctl_reachable_inv"],
+    "C04": {"lean": CTLMOD, "prefixes": ["c04_", "c18_consistent", "c09_start_fences_stale", "ctl_reachable_inv"],
             "runs": [ctl("reads", 480, 30, 9000, 40, 13)], "modelled": CTL},
     "C05": {"lean": CTLMOD, "prefixes": ["c05_", "c02_failed_detached", "c18_removed_silent", "ctl_reachable_inv"],
             "runs": [ctl("faults", 640, 30, 12000, 40, 14), rep("rebuild", 160, 30, 3000, 40, 48)], "modelled": CTL + [
